@@ -114,7 +114,10 @@ class Link(base.BaseObject):
         :param kill: the vertex to unlink
         """
         if kill in self._vertices:
-            self._vertices.remove(kill)
-
-            if kill is not None:
+            if kill is None:
+                self._vertices.remove(kill)
+            else:
+                # a vertex may be listed several times (e.g. a self-loop);
+                # drop every occurrence so the vertex and the link agree
+                self._vertices = [v for v in self._vertices if v is not kill]
                 kill.remove_from_link(self)
